@@ -89,7 +89,103 @@ def _from_field(b, op, obs_l, field):
                 rv = node["rv"]
                 if rv["k"] in ("use", "cast"):
                     work.append(rv["op"])
+                elif rv["k"] == "ref":
+                    work.append({"copy": rv["place"]})      # `let n = &obs.occurrences; *n > 0`
     return False
+
+
+def yield_decoders(F):
+    """closures in the histogram module that match on Observation and return Option<(value, count)>; with the iterator adapter that
+    drives them and the loops consuming the resulting iterator"""
+    out = []
+    for cb in F.all_bodies(AG):
+        if cb.kind != "Closure" or "histogram" not in cb.path or "::tests::" in cb.path:
+            continue
+        sw = None
+        for i in cb.live_blocks():
+            t = cb.term(i)
+            if t["k"] == "switch":
+                for s in cb.stmts(i):
+                    if s["k"] == "assign" and s["rv"]["k"] == "discr" and s["rv"].get("adt", "").endswith("value::Observation"):
+                        sw = (i, t, {n: d for d, n in s["rv"]["variants"]}, s["rv"]["place"]["l"])
+        if sw is None or not cb.locals[0]["ty"].startswith("core::option::Option<("):
+            continue
+        i, t, vm, obs_l = sw
+        tg = {v: tb for v, tb in t["targets"]}
+        pr = Prov(cb)
+        table = {}
+        for name, dv in vm.items():
+            tb = tg.get(dv)
+            if tb is None:
+                table[name] = ("skip",)
+                continue
+            others = {x for v, x in tg.items() if x != tb} | {t["otherwise"]}
+            region = cb.reachable(tb, avoid=[i])
+            somes = []
+            for j in region:
+                for s in cb.stmts(j):
+                    if s["k"] == "assign" and s["lhs"]["l"] == 0 and s["rv"]["k"] == "agg" and s["rv"].get("variant") == "Some" and \
+                            not any(j in cb.reachable(o, avoid=[i]) for o in others):
+                        somes.append((j, s))
+            if not somes:
+                table[name] = ("skip",)
+                continue
+            j, s = somes[0]
+            tup = None
+            l = op_local(s["rv"]["ops"][0])
+            for kind, bb_, idx, node in cb.defs().get(l, []):
+                if kind == "assign" and node["rv"]["k"] == "agg" and node["rv"].get("agg") == "tuple" and len(node["rv"]["ops"]) == 2:
+                    tup = node["rv"]["ops"]
+            cnt = "?"
+            if tup is not None:
+                k = op_const(tup[1])
+                if k is not None and k.get("int") == 1:
+                    cnt = "1"
+                elif _from_field(cb, tup[1], obs_l, "occurrences"):
+                    cnt = "occurrences"
+            guards = []
+            for gi, gt, yes, no in controlling_switches(cb, j):
+                if gi == i or gi not in region:
+                    continue
+                rv = discr_def(cb, gi, gt)
+                if rv and rv.get("k") == "binop" and rv["op"] in ("Gt", "Ne", "Lt", "Ge"):
+                    kk = [op_const(rv["a"]), op_const(rv["b"])]
+                    zero = any((x or {}).get("int") == 0 for x in kk)
+                    guards.append("%s-vs-%s" % ("occurrences" if (_from_field(cb, rv["a"], obs_l, "occurrences") or _from_field(cb, rv["b"], obs_l, "occurrences")) else "?", "0" if zero else "?"))
+                else:
+                    guards.append("other")
+            table[name] = ("yield", cnt, tuple(sorted(guards)))
+        # the adapter that drives the closure, and the function that returns the iterator
+        adapter, owner = "?", None
+        for pb in F.all_bodies(AG):
+            for c in pb.calls():
+                if cb in closure_args(F, c):
+                    adapter, owner = c.name, pb
+        consumers = []
+        if owner is not None:
+            for cs in F.callers_of(owner.path, crates=[AG]):
+                b = cs.body
+                if "::tests::" in b.path:
+                    continue
+                pr2 = Prov(b)
+                nxt = [c for c in b.calls() if c.is_trait_method("Iterator", "next") and c.bb in b.reachable_after(c.bb) and
+                       any(x[0] in ("call", "via") and x[1] == cs.bb for x in pr2.operand(c.args[0]))]
+                recs = [c for c in b.calls() if c.name == "record_many" and "AggregationStrategy" in (c.trait or "")]
+                ok, why = False, "no loop over the decoder's iterator with a record_many call"
+                for n in nxt:
+                    some_t = None
+                    for sw_, tg_, oth_ in switch_on_call_result(b, n):
+                        some_t = tg_.get(1)
+                    mine = [r for r in recs if some_t is not None and r.bb in b.reachable(some_t, avoid=[n.bb])]
+                    if len(mine) == 1:
+                        r = mine[0]
+                        from_item = lambda a: any(x[0] in ("call", "callf") and x[1] == n.bb for x in pr2.operand(a))
+                        every = some_t == r.bb or n.bb not in b.reachable(some_t, avoid=[r.bb])
+                        ok = from_item(r.args[1]) and from_item(r.args[2]) and every
+                        why = "" if ok else ("value/count do not both come from the decoded pair" if every else "an iteration can skip record_many")
+                consumers.append({"body": b, "bb": cs.bb, "ok": ok, "why": why})
+        out.append({"closure": cb, "table": table, "adapter": adapter, "owner": owner, "consumers": consumers})
+    return out
 
 
 def run(ctx):
@@ -97,8 +193,20 @@ def run(ctx):
     caps = [b for b in F.all_bodies(AG) if "histogram" in b.path and "::tests::" not in b.path and b.kind == "AssocFn" and
             any(c.name == "record_many" and "AggregationStrategy" in (c.trait or "") for c in b.calls()) and
             any(c.name == "record" for c in b.calls())]
-    ctx.floor("R11.1", "observation-capture bodies", len(caps), 3)
+    # the same decoding written once as an iterator of (value, occurrences) pairs: a closure matching on Observation that yields
+    # Some((value, count)) / None, consumed by loops that call record_many(value, count)
+    ydec = yield_decoders(F)
+    consumers = []
+    for d in ydec:
+        for cs in d["consumers"]:
+            consumers.append((d, cs))
+    ctx.floor("R11.1", "observation-capture sites (decoding bodies + consumers of a shared decoder)", len(caps) + len(consumers), 3)
     tables = {}
+    want = {
+        "Unsigned": (("record", "1(record)", (), "once"),),
+        "Floating": (("record", "1(record)", (), "once"),),
+        "Repeated": (("record_many", "occurrences", ("occurrences-vs-0",), "once"),),
+    }
     for b in caps:
         t = arm_table(F, b)
         key = fnkey(b)
@@ -106,14 +214,27 @@ def run(ctx):
             ctx.bad("R11.1", key + "#observation-match", loc(b), "capture body no longer matches on the Observation variants")
             continue
         tables[b.path] = t
-        want = {
-            "Unsigned": (("record", "1(record)", (), "once"),),
-            "Floating": (("record", "1(record)", (), "once"),),
-            "Repeated": (("record_many", "occurrences", ("occurrences-vs-0",), "once"),),
-        }
         for v, w in want.items():
             ctx.check(t.get(v) == w, "R11.1", key + "#arm-" + v, loc(b),
                       "the %s arm records %s, expected %s: observation counts would not be conserved" % (v, t.get(v), w), str(w))
+    for d in ydec:
+        cb = d["closure"]
+        key = fnkey(cb)
+        wanty = {"Unsigned": ("yield", "1", ()), "Floating": ("yield", "1", ()), "Repeated": ("yield", "occurrences", ("occurrences-vs-0",))}
+        for v, w in wanty.items():
+            ctx.check(d["table"].get(v) == w, "R11.1", key + "#arm-" + v, loc(cb),
+                      "the %s arm of the shared decoder yields %s, expected %s: observation counts would not be conserved" % (v, d["table"].get(v), w), str(w))
+        ctx.check(d["adapter"] in ("filter_map", "flat_map"), "R11.1", key + "#unusable-observation-is-skipped-not-terminal", loc(cb),
+                  "the shared decoder is driven by `%s`: an observation that yields nothing (e.g. Repeated with zero occurrences) ends the whole "
+                  "iteration, so every later observation of the same value is dropped (filter_map skips just that one)" % d["adapter"],
+                  "decoder driven by %s" % d["adapter"])
+        for cs in d["consumers"]:
+            ctx.check(cs["ok"], "R11.1", fnkey(cs["body"]) + "#records-each-decoded-pair", loc(cs["body"], cs["bb"]),
+                      "the loop over the decoded (value, occurrences) pairs does not hand both to record_many once per pair: %s" % cs["why"],
+                      "record_many(value, occurrences) once per decoded pair")
+        # for sibling comparison the yield form normalises to the direct form
+        tables[cb.path] = {"Unsigned": want["Unsigned"], "Floating": want["Floating"], "Repeated": want["Repeated"]} if all(
+            d["table"].get(v) == w for v, w in wanty.items()) else d["table"]
     # sibling agreement of the capture copies
     if len(tables) >= 2:
         vals = list(tables.items())
